@@ -19,7 +19,11 @@ RULE = ("the real qmail-send, qmail-clean AND (started by the real qmail.c of qm
         "qmail-send on a file below info/ local/ remote/ bounce/ todo/ - open, read, write, fsync, fstat, stat, unlink, utimes - with exactly that call failing, and one run per unlink of "
         "qmail-clean (intd/ todo/ mess/) failing with EIO so that qmail-clean answers '!' and up to 12 runs with one system call of the first qmail-queue child failing; thorough: every fourth base sweeps every system call) and %(n)s/50 clean-stop sweeps (1-2 messages with more recipients than delivery slots, queuelifetime {0,1,150,default}: "
         "base run, then one run per select point at/after which a command, report or arrival happened (and every 16th idle one) with TERM delivered there, the daemon exiting 0 "
-        "once the in-flight attempts have reported, and a restart on the same queue). Every trace is abstracted to Daemon.Ev events and replayed through the monitor "
+        "once the in-flight attempts have reported, and a restart on the same queue) and %(n)s/80 slow-delivery fault sweeps (1-2 messages x 2-5 recipients, every delivery in flight for 2-31 "
+        "selects of the daemon and 0/130/200/1000 s of virtual time - longer than SLEEP_SYSFAIL - mostly more delivery slots than recipients so that a pass ends while its attempts are outstanding, ALRM/HUP "
+        "meanwhile, the clock jumping to whatever retry time comes due next: base run, then one run per system call of qmail-send on a file below info/ local/ remote/ bounce/ todo/ with exactly that call "
+        "failing - even members: the calls of the first daemon (preprocessing, pass opening incl. getinfo's open/fstat/read, marking); odd members: clean stop before or after the first commands, then the "
+        "calls of the RESTARTED daemon (pqstart/pqadd's stat()s of info/ todo/ local/ remote/, the pqfail retry 123 s later, pass opening)). Every trace is abstracted to Daemon.Ev events and replayed through the monitor "
         "Daemon.accept2 (= Daemon.accept plus the list of completion marks that are due, kept across clean restarts; first rejected event = disagreement); the oracles judge the concrete run, keyed by record (message, channel, byte offset, generation): every accepted recipient is delivered (K read for that record), still T at its "
         "offset, in todo/, named in bounce/<m> with info/<m>, named in a bounce of ITS message queued with the envelope of the accepted sender (a wrong envelope is a violation), or exempt because "
         "its own paragraph was discarded with the bounce file of a #@[] message or was in bounce/<m> before a machine crash and not after; no bounce paragraph without a D report or a Z past the "
